@@ -110,7 +110,9 @@ TypedDigits(w) ==
   \cup (CASE w = 1 -> { <<"i", <<128>>>>, <<"i", <<255>>>> }
           [] w = 2 -> { <<"i", <<128, 0>>>>, <<"i", <<255, 254>>>> }
           [] w = 4 -> { <<"i", <<128, 0, 0, 0>>>>, <<"i", <<255, 255, 255, 254>>>>,
-                        <<"f", <<63, 128, 0, 0>>>>, <<"f", <<127, 192, 0, 1>>>>, <<"f", <<255, 161, 35, 69>>>>, <<"f", <<127, 160, 0, 0>>>> })
+                        <<"f", <<63, 128, 0, 0>>>>, <<"f", <<127, 192, 0, 1>>>>, <<"f", <<255, 161, 35, 69>>>>, <<"f", <<127, 160, 0, 0>>>>,
+                        \* the two zeros: equal as numbers, different bit patterns
+                        <<"f", <<0, 0, 0, 0>>>>, <<"f", <<128, 0, 0, 0>>>> })
 Types(w) == IF w = 4 THEN {"u", "i", "f"} ELSE {"u", "i"}
 
 AccessEvents(s) ==
@@ -160,6 +162,10 @@ SessionEvents(s) ==
       V  == Step("s_write_val", 0, 4, FALSE, <<1, 2, 3, 4>>, "u")
       V1 == Step("s_write_val", 0, 1, FALSE, <<200>>, "u")
       WB == Step("s_write_bytes", 0, 0, FALSE, <<9, 8>>, "")
+      \* a value that compares equal to what the cell holds but has other bits (+0.0 / -0.0) must still be stored
+      FZ == Step("s_write_val", 0, 4, FALSE, <<0, 0, 0, 0>>, "f")
+      FN == Step("s_write_val", 0, 4, FALSE, <<128, 0, 0, 0>>, "f")
+      RF == Step("s_read_val", 0, 4, FALSE, <<>>, "f")
       R  == Step("s_read_val", 0, 4, FALSE, <<>>, "u")
       R1 == Step("s_read_val", 0, 1, FALSE, <<>>, "u")
       B2 == Step("s_read_bytes", 0, 2, FALSE, <<>>, "")
@@ -171,7 +177,7 @@ SessionEvents(s) ==
              THEN { Sess("r", c, ss) : c \in {0, 1}, ss \in { <<R, R>>, <<R1, R1, R>>, <<R1, B2, R1>>, <<S, P>>, <<Lb, R, Lb>>, <<Sk, R1, Sk, R1>>,
                                                               <<K(n), R1>>, <<R, K(0), R>> } }
                   \cup (IF n >= 1 THEN { Sess("r", 0, <<K(n - 1), R1, R1>>) } ELSE {})
-                  \cup { Sess("w", c, ss) : c \in {0, 1}, ss \in { <<V1, V1>>, <<V, V>>, <<WB, V1, Z>>, <<V, K(0), V1>> } }
+                  \cup { Sess("w", c, ss) : c \in {0, 1}, ss \in { <<V1, V1>>, <<V, V>>, <<WB, V1, Z>>, <<V, K(0), V1>>, <<FZ, K(0), FN>>, <<FN, K(0), FZ>> } }
                   \cup (IF n >= 4 THEN { Sess("w", 0, <<K(n - 4), V, V1>>) } ELSE {})
              ELSE { Sess("w", c, ss) : c \in {0, n},
                       ss \in { <<A, K(n), L>>, <<A, K(n), LG>>, <<A, K(0), L, Z>>, <<K(n), L, Z>>, <<K(0), L, V>>, <<K(n), L, L>>,
